@@ -303,6 +303,14 @@ func getInitialTimeForScheduling(
 // following popTime, such that it complies with the constraints of the
 // JobConfig's schedule.
 func getNext(jobConfig *execution.JobConfig, expr cron.Expression, fromTime time.Time) time.Time {
+	// Cannot schedule before NotBefore. Subtract a nanosecond so that a schedule
+	// time falling exactly on NotBefore is included.
+	if spec := jobConfig.Spec.Schedule; spec != nil && spec.Constraints != nil {
+		if nbf := spec.Constraints.NotBefore; !nbf.IsZero() && fromTime.Before(nbf.Time) {
+			fromTime = nbf.Time.Add(-time.Nanosecond).In(fromTime.Location())
+		}
+	}
+
 	next := expr.Next(fromTime)
 
 	// Cannot schedule after NotAfter.
